@@ -43,7 +43,7 @@ func (q *and) String() string {
 
 // Equal 当实体组件完全等于 componentIds 中的所有 ComponentId 时，条件成立
 func Equal(componentIds ...ComponentId) Query {
-	mask := new(toolkit.DynamicBitSet)
+	mask := toolkit.NewDynamicBitSet() // 与原型掩码相同的构造方式，否则空集合永远无法匹配根原型
 	for _, i := range componentIds {
 		mask.Set(i)
 	}
